@@ -138,7 +138,8 @@ def jobs(tier):
         plan = {"routing": {0: (0, 7, 8, 10), 1: (8,), 3: (10,)}, "net": {0: (32,), 2: (1, 8), 4: (9,)},
                 "mesh": {1: (8,), 2: (32,), 4: (7,)}, "master": {0: (0, 7, 8, 9, 10, 32)}}
     else:
-        plan = {r: {l: range(0, 33) for l in ((0,) if r == "master" else range(0 if r != "mesh" else 1, 5))} for r in ROLES}
+        lens = list(range(0, 14)) + [16, 20, 24, 28, 31, 32]
+        plan = {r: {l: lens for l in ((0,) if r == "master" else range(0 if r != "mesh" else 1, 5))} for r in ROLES}
     for role in ROLES:
         for lvl, lens in plan[role].items():
             for n in lens:
@@ -154,9 +155,15 @@ def jobs(tier):
                                                            first=[195, 0o12] + (["discarded-second"] if tier == "quick" else [])),
                    cost=400, shards=(8 if tier == "quick" else 16)))
     if tier == "thorough":
+        # every role; first frame of every type the network layer treats specially (and a user type), addressed to the multicast
+        # address from an unassigned node, or to this node from 0o12
         for role in ROLES:
-            out.append(Job("O1-update-two-frames", o1_update, dict(role=role, lvl=0 if role == "master" else 2, n=8, frames=2, first="consumed"),
-                           cost=2000, shards=16))
+            for t in (1, 130, 148, 149, 150, 193, 194, 195, 196, 197, 198, 199):
+                for first in (t, [t, 0o12]):
+                    if role == "master" and first in (195, 194, 1):
+                        continue  # above
+                    out.append(Job("O1-update-two-frames", o1_update,
+                                   dict(role=role, lvl=0 if role == "master" else 2, n=8, frames=2, first=first), cost=400, shards=8))
     for role, lvl, n2 in ((("net", 2, 7), ("routing", 1, 1), ("master", 0, 5), ("mesh", 3, 0)) if tier == "quick" else
                           [(r, l, n2) for r, l in (("net", 2), ("routing", 1), ("master", 0), ("mesh", 3), ("net", 0)) for n2 in range(8)]):
         for same in (False, True):
@@ -171,7 +178,9 @@ META = {
     "bounds": {"quick": "O1: 4 roles, 3 levels each (symbolic digits), payload lengths from {0,1,7,8,9,10,12,32} (six on the master), all payload bytes "
                         "symbolic, pipe symbolic, one symbolic outcome per transmitted packet, master with 2 arbitrary leases; on the master also two-frame sequences whose first frame is a multicast-addressed frame of type 195 / 194 / 1 from 0o4444, or an address request relayed from 0o12 (symbolic id / reserved), and whose second frame is arbitrary (after the relayed request: any frame the node discards); "
                         "O2: a symbolic in [-65536, 131072] and None",
-               "thorough": "every length 0..32; two-frame sequences on every role whose first frame is addressed to the multicast address or the node itself"},
+               "thorough": "lengths 0..13, 16, 20, 24, 28, 31, 32 on every role and level; two-frame sequences on every role whose first frame has one of 12 "
+                           "types (user, NETWORK_EXT_DATA, the three fragment types, 193..199) and is addressed to the multicast address from an unassigned "
+                           "node or to the node itself from 0o12; a short payload of every length 0..7 after a handled frame"},
     "outside": ["sequences of more than 2 frames; two-frame sequences whose first frame is routed elsewhere (update() returns after it)", "lease tables with more than 2 entries (C16 goes to 5)",
                 "the mesh node at the unassigned address 0o4444 is covered as level-4 instance 0o4444 of the symbolic digits"],
     "assumptions": ["one outcome per transmitted packet (all automatic and forced retries of that packet share it)",
